@@ -10,7 +10,7 @@ import numpy as np
 
 from simkit import simio
 from simkit.engine import Refuse, Violation
-from simkit.worldbase import BUFS, CHUNKS, LINE_FAULTS, WorldBase
+from simkit.worldbase import BUFS, CHUNKS, LINE_FAULTS, WorldBase, lib_logging
 from worlds.common import Config
 
 PATHS = ("neighborlist.dat", "nl_a.dat", "nl_b.dat", "w_a.dat")
@@ -218,8 +218,9 @@ class World(WorldBase):
         maxcn = max([r[1] for r in self.files[a]["frames"][ta]] + [r[1] for r in self.files[b]["frames"][tb]])
         nmax = rng.choice([maxcn, maxcn + 1, 200, None, max(1, maxcn - 1), 65])
         nln = 7 * n + 14
-        every = os.environ.get("VERIF_TIER", "quick") != "quick" or nln <= 60
-        m = nln if every else rng.choice([12, 24, 40])
+        thorough = os.environ.get("VERIF_TIER", "quick") != "quick"
+        every = nln <= (320 if thorough else 60)
+        m = nln if every else rng.choice([40, 80] if thorough else [12, 24, 40])
         ats = list(range(1, nln + 1)) if every else sorted({1 + (k * nln) // m + rng.randrange(max(1, nln // m)) for k in range(m)})
         return {"op": "read_sweep", "a": a, "ta": ta, "b": b, "tb": tb, "nmax": nmax, "ats": [min(nln, x) for x in ats],
                 "exc": rng.choice([k for k in sw["faults"] if k in LINE_FAULTS])}
@@ -325,6 +326,8 @@ class World(WorldBase):
                 nev = self.dry_events(lambda: self.invoke_producer(op))
                 op["fault"] = {"kind": fkind, "at": self.pick_fault_event(rng, nev),
                                "hold": rng.randint(0, sw["hold_max"])}
+                if fkind == "oserror_write" and rng.random() < 0.5:
+                    op["fault"]["persist"] = True        # the disk stays full for the rest of the call
                 self.ctx.probe("dry_runs")
         else:
             self.gen_env(rng, op)
@@ -346,12 +349,27 @@ class World(WorldBase):
                                "edgeitems": rng.choice([1, 3]), "precision": rng.choice([3, 8])}
         if rng.random() < sw.get("p_thread", 0.0):
             op["thread"] = True
+        if op.get("printopts") and rng.random() < 0.4:
+            op["printopts_scoped"] = True          # `with np.printoptions(...)`: restored after the call
+        if rng.random() < sw.get("p_env", 0.0) * 0.7:
+            op["loglevel"] = rng.choice(["DEBUG", "DEBUG", "INFO"])
 
     def client(self, op, fn):
         """fn as the client calls it: after its own changes to the process, maybe from a worker thread."""
         po = op.get("printopts")
 
         def run():
+            if op.get("loglevel"):
+                self.ctx.probe("client_switched_library_logging_on")
+                with lib_logging(op["loglevel"]):
+                    return run2()
+            return run2()
+
+        def run2():
+            if po and op.get("printopts_scoped"):
+                self.ctx.probe("client_changed_numpy_printoptions_scoped")
+                with np.printoptions(**po):
+                    return fn()
             if po:
                 np.set_printoptions(**po)
                 self.ctx.probe("client_changed_numpy_printoptions")
